@@ -472,6 +472,56 @@ def rule_g(ctx):
     ctx.floor(R, 1)
 
 
+def rule_h(ctx):
+    R = "C08.h"
+    ctx.rule(R, "the shared fully reduced matrix is consistent at every solve: eliminate_lagrange_multiplier overwrites its data in the entry "
+             "order fixed at set-up, so its index array must be the one of set-up as well -- either the indices are restored on every "
+             "path, or no back-end for which the restore is skipped re-organises the matrix it is given in place (effect summaries of "
+             "the solver wrappers and set-up methods)")
+    from ..effects import Effects
+
+    m = ctx.model
+    base = m.cls(WAS, BASE)
+    el = m.method(base, "eliminate_lagrange_multiplier")
+    ctx.instance(R)
+    data_w = [st for st in ast.walk(el.node) if isinstance(st, ast.Assign) and norm(st.targets[0]).startswith("self.fully_reduced_jacobian.data")]
+    idx_w = [st for st in ast.walk(el.node) if isinstance(st, ast.Assign) and norm(st.targets[0]) == "self.fully_reduced_jacobian.indices"]
+    if not data_w:
+        ctx.ob(R, el.qname, "data of the shared fully reduced matrix is overwritten in place (entry order of set-up)", False, "in-place overwrite of self.fully_reduced_jacobian.data not found", el.node)
+        ctx.floor(R, 1)
+        return
+    uncond = [st for st in idx_w if st in el.node.body]
+    # matrix-modifying back-ends
+    E = Effects(m)
+    ctx.consult("darsia.utils.linalg")
+    offenders = []
+    cands = [f for k in m.mod("darsia.utils.linalg").classes.values() for f in k.methods.values()]
+    cands += [f for name, f in base.methods.items() if name.startswith("setup_") and "solver" in name]
+    for f in cands:
+        for p_ in sorted(E.mutated(f, exclude=(f.params[0],) if f.params and f.cls is not None else ())):
+            ev = E.events_on(f, p_)
+            offenders.append((f, p_, ev[0] if ev else None))
+    ctx.stat("solver_wrappers_scanned", len(cands))
+    if uncond:
+        ctx.ob(R, el.qname, "the index array of the shared fully reduced matrix is restored whenever its data is overwritten", True, "", uncond[0])
+        for f, p_, ev in offenders:
+            ctx.note(f"{R}: {f.short} modifies its matrix argument `{p_}` in place ({ev}); harmless while the indices are restored unconditionally")
+    elif idx_w:
+        conds = []
+        cur = getattr(idx_w[0], "_parent", None)
+        while cur is not None and cur is not el.node:
+            if isinstance(cur, ast.If):
+                conds.append(norm(cur.test)[:60])
+            cur = getattr(cur, "_parent", None)
+        ctx.ob(R, el.qname, "the index array of the shared fully reduced matrix is restored whenever its data is overwritten, or no back-end re-organises the matrix it is given", not offenders,
+               f"the restore is conditional ({' and '.join(conds)}), and {offenders[0][0].short} modifies its matrix argument `{offenders[0][1]}` in place ({offenders[0][2]}): after the first set-up the "
+               "data written in set-up order no longer matches the re-sorted indices -- a different matrix is solved from the second system on" if offenders else "", idx_w[0], evidence=True)
+    else:
+        ctx.ob(R, el.qname, "the index array of the shared fully reduced matrix is restored whenever its data is overwritten, or no back-end re-organises the matrix it is given", not offenders,
+               f"the indices are never restored, and {offenders[0][0].short} modifies its matrix argument `{offenders[0][1]}` in place" if offenders else "", el.node, evidence=bool(offenders))
+    ctx.floor(R, 1)
+
+
 def run(ctx):
     m = ctx.model
     ctx.consult(WAS)
@@ -484,6 +534,7 @@ def run(ctx):
     rule_e(ctx)
     rule_f(ctx)
     rule_g(ctx)
+    rule_h(ctx)
     # callers of linear_solve: a reused factorisation must belong to the matrix being solved (C04.g)
     from . import c04
     from .common import shared
